@@ -577,9 +577,11 @@ func (x *Exec) global(g *ssa.Global) *Object {
 	o := x.newObject(x.ncells(et), "global:"+g.String())
 	copy(o.Cells, x.cellsOf(x.zero(et), et))
 	x.globals[g] = o
-	if g.Pkg != nil && !x.initDone[g.Pkg] {
+	if g.Pkg != nil {
 		if pkgWhitelisted(g.Pkg) {
-			x.runInit(g.Pkg)
+			if !x.initDone[g.Pkg] {
+				x.runInit(g.Pkg)
+			}
 		} else if types.Identical(et, types.Universe.Lookup("error").Type()) {
 			// opaque sentinel error
 			o.Cells[0] = x.opaqueError("sentinel:" + g.String())
@@ -1416,7 +1418,7 @@ func (x *Exec) implements(v Iface, it *types.Interface) bool {
 // ---- indexing ----
 
 func (x *Exec) idxConcrete(idx *Term, n int, signed bool, what string) int {
-	ts := x.ts
+	_ = x.ts
 	if idx.IsConst() {
 		var i int64
 		if signed {
@@ -1432,8 +1434,9 @@ func (x *Exec) idxConcrete(idx *Term, n int, signed bool, what string) int {
 		}
 		return int(i)
 	}
-	// bounds check (unsigned compare covers negative)
-	if !x.branch(ts.ULt(idx, ts.ConstU(idx.W, uint64(n)))) {
+	// bounds check (unsigned compare covers negative); an index type too narrow
+	// to reach n is always in range
+	if !x.idxInRange(idx, n) {
 		x.goPanic("index", fmt.Sprintf("%s: symbolic index out of range with length %d", what, n))
 	}
 	if n > x.cfg.MaxLen*64 {
@@ -1491,11 +1494,81 @@ func (x *Exec) index(f *frame, ins *ssa.Index) Value {
 		i := x.idxConcrete(idx, n, signed, "array value")
 		return x.fromCells(b[i*ec:(i+1)*ec], at.Elem())
 	case StrV:
+		if !idx.IsConst() && b.Sym == nil {
+			// constant table indexed by a symbolic value: ite chain over the
+			// entries that differ from the most frequent one
+			return x.tableRead([]byte(b.S), idx)
+		}
 		i := x.idxConcrete(idx, b.Len(), signed, "string")
 		return x.strBytes(b)[i]
 	}
 	x.abort("unsupported", fmt.Sprintf("Index on %T", base))
 	return nil
+}
+
+// idxInRange branches on idx < n (unsigned).
+func (x *Exec) idxInRange(idx *Term, n int) bool {
+	if idx.W < 63 && uint64(n) >= uint64(1)<<uint(idx.W) {
+		return true
+	}
+	return x.branch(x.ts.ULt(idx, x.ts.ConstU(idx.W, uint64(n))))
+}
+
+// tableRead reads a constant byte table at a symbolic index.
+func (x *Exec) tableRead(tab []byte, idx *Term) Value {
+	ts := x.ts
+	if len(tab) == 0 || !x.idxInRange(idx, len(tab)) {
+		x.goPanic("index", fmt.Sprintf("string: symbolic index out of range with length %d", len(tab)))
+	}
+	if conds, vals, def, ok := IteChain(idx); ok {
+		// index is itself a table read: compose the tables
+		at := func(v *big.Int) *Term {
+			if v.IsInt64() && v.Int64() < int64(len(tab)) {
+				return ts.ConstU(8, uint64(tab[v.Int64()]))
+			}
+			return ts.ConstU(8, 0) // excluded by the bounds check above
+		}
+		r := at(def)
+		for i := len(conds) - 1; i >= 0; i-- {
+			r = ts.Ite(conds[i], at(vals[i]), r)
+		}
+		return r
+	}
+	var cnt [256]int
+	best := 0
+	for _, c := range tab {
+		cnt[c]++
+		if cnt[c] > cnt[best] {
+			best = int(c)
+		}
+	}
+	r := ts.ConstU(8, uint64(best))
+	idx8 := idx
+	if idx.W > 8 {
+		idx8 = ts.Extract(idx, 7, 0)
+	} else if idx.W < 8 {
+		idx8 = ts.ZExt(idx, 8)
+	}
+	for i := len(tab) - 1; i >= 0; {
+		if int(tab[i]) == best {
+			i--
+			continue
+		}
+		// maximal run [j..i] with tab[k]-k constant: one range test, value idx+delta
+		j := i
+		for j > 0 && int(tab[j-1]) != best && tab[j-1]-byte(j-1) == tab[i]-byte(i) {
+			j--
+		}
+		if i-j >= 2 {
+			in := ts.And(ts.ULe(ts.ConstU(idx.W, uint64(j)), idx), ts.ULe(idx, ts.ConstU(idx.W, uint64(i))))
+			r = ts.Ite(in, ts.Add(idx8, ts.ConstU(8, uint64(tab[i]-byte(i)))), r)
+			i = j - 1
+			continue
+		}
+		r = ts.Ite(ts.Eq(idx, ts.ConstU(idx.W, uint64(i))), ts.ConstU(8, uint64(tab[i])), r)
+		i--
+	}
+	return r
 }
 
 // iteRead builds an ite chain for a symbolic index over scalar cells.
@@ -1506,7 +1579,7 @@ func (x *Exec) iteRead(cells []Value, idx *Term, n int) Value {
 			return nil
 		}
 	}
-	if !x.branch(ts.ULt(idx, ts.ConstU(idx.W, uint64(n)))) {
+	if !x.idxInRange(idx, n) {
 		x.goPanic("index", fmt.Sprintf("symbolic index out of range with length %d", n))
 	}
 	r := cells[n-1].(*Term)
